@@ -622,12 +622,8 @@ func (env *Env) quant(q *EQuant) Val {
 	var ranges []string
 	for _, b := range q.Vars {
 		gt := env.resolveType(b.Type)
-		n := fmt.Sprintf("|q.%s|", b.Name)
-		// avoid capture when nested quantifiers reuse names
-		if _, exists := env.vars[b.Name]; exists {
-			g.nfresh++
-			n = fmt.Sprintf("|q.%s.%d|", b.Name, g.nfresh)
-		}
+		g.nfresh++
+		n := fmt.Sprintf("|q.%s.%d|", b.Name, g.nfresh)
 		decl = append(decl, fmt.Sprintf("(%s %s)", n, g.sortOfG(gt)))
 		vars[b.Name] = Val{n, gt}
 		if gt.T != nil {
@@ -846,6 +842,11 @@ func (env *Env) call(c *ECall) Val {
 	case "ite":
 		need(3)
 		cnd, a, b := arg(0), env.value(arg(1)), env.value(arg(2))
+		if a.S == "nil" && b.S != "nil" && b.G.T != nil {
+			a = Val{g.zero(b.G.T), b.G}
+		} else if b.S == "nil" && a.S != "nil" && a.G.T != nil {
+			b = Val{g.zero(a.G.T), a.G}
+		}
 		if a.G.Unt && !b.G.Unt {
 			a = env.adapt(a, b.G)
 		} else if b.G.Unt && !a.G.Unt {
@@ -1046,10 +1047,10 @@ func (env *Env) methodCall(recv Val, name string, args []Expr) Val {
 	if recv.G.Loc {
 		t = types.NewPointer(t)
 	}
-	obj, _, _ := types.LookupFieldOrMethod(t, true, env.pkgOf(), name)
+	obj, index, _ := types.LookupFieldOrMethod(t, true, env.pkgOf(), name)
 	if obj == nil {
 		for _, p := range g.P.Pkgs {
-			obj, _, _ = types.LookupFieldOrMethod(t, true, p.Types, name)
+			obj, index, _ = types.LookupFieldOrMethod(t, true, p.Types, name)
 			if obj != nil {
 				break
 			}
@@ -1058,6 +1059,10 @@ func (env *Env) methodCall(recv Val, name string, args []Expr) Val {
 	mf, ok := obj.(*types.Func)
 	if !ok {
 		sfail("no method %s on %s", name, t)
+	}
+	// method promoted from an embedded struct: walk to the embedded receiver
+	for _, i := range index[:len(index)-1] {
+		recv = env.selField(recv, i)
 	}
 	key := methodKey(mf)
 	fn := g.P.Funcs[key]
